@@ -19,6 +19,7 @@ from .commons import (
     DATE_FMT_DEFAULT,
     kvn2dict,
     xml2dict,
+    as_list,
     get_format,
 )
 
@@ -216,7 +217,7 @@ def _loads_xml(string):
 
     ud_dict = data["body"]["segment"]["data"].get("userDefinedParameters", {})
 
-    for field in ud_dict.get("USER_DEFINED", []):
+    for field in as_list(ud_dict.get("USER_DEFINED")):
         ud = orb._data.setdefault("ccsds_user_defined", {})
         ud[field.attrib["parameter"]] = field.text
 
